@@ -10,12 +10,12 @@ using namespace ipr;
 
 static void body(Ctx& C)
 {
-   C.rule("a case = one substitution history: a pool of 1..200 parameters over several mappings/levels (plus lambda and requires "
-          "parameters), a sequence of 0..2000 bindings with ~30% rebinding, including binding a parameter to itself and to another "
+   C.rule("a case = one substitution history: a pool of 1..200 parameters over several mappings (some at one level), lambdas, requires-"
+          "expressions and function declarators (look-alike parameters: same name, type, level and position in different lists), a sequence of 0..2000 bindings with ~30% rebinding, including binding a parameter to itself and to another "
           "parameter; after every binding every parameter of the pool is queried and compared with a std::map model (latest binding, "
           "else the parameter itself); elementary substitutions: one binding, every pool parameter queried; non-trivial = >= 2 parameters");
    C.need("elementary_queries_in_domain"); C.need("elementary_queries_outside_domain"); C.need("general_queries_in_domain");
-   C.need("general_queries_outside_domain"); C.need("rebindings"); C.need("self_bindings");
+   C.need("general_queries_outside_domain"); C.need("rebindings"); C.need("self_bindings"); C.need("parameter_lists");
    Rng seeds(C.seed);
    const int nhist = C.thorough ? 6000 : 120;
    for (int h = 0; h < nhist; ++h) {
@@ -30,18 +30,31 @@ static void body(Ctx& C)
       int nlists = 1 + int(rng.below(4));
       std::vector<impl::Mapping*> maps;
       for (int i = 0; i < nlists; ++i) maps.push_back(lex.make_mapping(greg, Mapping_level{ std::size_t(i) }));
-      auto* lam = lex.make_lambda(greg, Mapping_level{ 7 });
-      auto* req = lex.make_requires(greg, Mapping_level{ 8 });
+      // parameter lists of every kind of owner, several of each, some at the SAME nesting level: parameters of different lists
+      // that agree in name, type, level and position are still different parameters (lambdas and mappings own their parameter
+      // region, requires-expressions and function declarators do not)
+      std::vector<impl::Parameter_list*> others;
+      for (int i = 0; i < 2 + int(rng.below(2)); ++i) others.push_back(&lex.make_lambda(greg, Mapping_level{ 7 })->inputs);
+      for (int i = 0; i < 2 + int(rng.below(3)); ++i) others.push_back(&lex.make_requires(greg, Mapping_level{ std::size_t(8 + i % 2) })->formals);
+      for (int i = 0; i < 2 + int(rng.below(2)); ++i) others.push_back(&greg.make_function_morphism(greg, Mapping_level{ 0 })->inputs);
+      if (rng.chance(50)) for (int i = 0; i < 2; ++i) maps.push_back(lex.make_mapping(greg, Mapping_level{ 1 }));       // two more mappings at one level
+      const int nmaps = int(maps.size());
       const Type* tys[] = { &L.int_type(), &L.typename_type(), &L.double_type() };
       for (int i = 0; i < np; ++i) {
          std::string s = "p" + std::to_string(i % 5);        // names repeat across lists on purpose
          auto& id = lex.get_identifier(std::u8string_view(reinterpret_cast<const char8_t*>(s.data()), s.size()));
-         int which = int(rng.below(nlists + 2));
+         int which = int(rng.below(std::uint64_t(nmaps) + others.size()));
          const Type& t = *tys[rng.below(3)];
-         if (which < nlists) pool.push_back(maps[which]->param(id, t));
-         else if (which == nlists) pool.push_back(lam->inputs.add_member(id, t));
-         else pool.push_back(req->formals.add_member(id, t));
+         if (which < nmaps) pool.push_back(maps[std::size_t(which)]->param(id, t));
+         else pool.push_back(others[std::size_t(which - nmaps)]->add_member(id, t));
       }
+      {  // make sure look-alikes exist: the first parameter of every list (same position 0), same name and type
+         auto& id0 = lex.get_identifier(u8"p0");
+         for (auto m : maps) if (m->parameters().size() == 0) pool.push_back(m->param(id0, L.int_type()));
+         for (auto o : others) if (o->size() == 0) pool.push_back(o->add_member(id0, L.int_type()));
+         C.count("parameter_lists", (long long)(maps.size() + others.size()));
+      }
+      np = int(pool.size());
       std::vector<const Expr*> values;
       for (int i = 0; i < 12; ++i) { std::string s = std::to_string(i); values.push_back(lex.make_literal(L.int_type(), std::u8string_view(reinterpret_cast<const char8_t*>(s.data()), s.size()))); }
       values.push_back(&L.int_type()); values.push_back(&L.true_value()); values.push_back(lex.make_phantom());
